@@ -90,6 +90,16 @@ fn msg_attrs(list: &[(Kind, MsgAttr)]) -> String {
         match a {
             MsgAttr::Marker(n) => writeln!(s, "#[sv::msg_attr({}, doc = \"vp-{n}\")]", k.attr()).unwrap(),
             MsgAttr::DerivePartialOrd => writeln!(s, "#[sv::msg_attr({}, derive(PartialOrd))]", k.attr()).unwrap(),
+            MsgAttr::DeriveMarker(n) => {
+                const SUFFIX: &[&str] = &["Serialize", "Deserialize", "Clone", "Debug", "PartialEq", "JsonSchema", "Marker"];
+                let name = format!("Vp{n}{}", SUFFIX[*n as usize % SUFFIX.len()]);
+                let list = match n % 3 {
+                    0 => name,
+                    1 => format!("Eq, vp::{name}"),
+                    _ => format!("{name}, PartialOrd"),
+                };
+                writeln!(s, "#[sv::msg_attr({}, derive({list}))]", k.attr()).unwrap()
+            }
         }
     }
     s
@@ -192,10 +202,13 @@ pub fn generics_decl(p: &Program) -> (String, String, String) {
     // (impl generics `<T0, T1>`, type args `<T0, T1>`, where clause)
     let n = p.contract.generics.len();
     if n == 0 {
+        if p.contract.lifetime {
+            return ("<'a>".into(), "<'a>".into(), String::new());
+        }
         return (String::new(), String::new(), String::new());
     }
     let names = param_names(p);
-    let list = names.join(", ");
+    let list = if p.contract.lifetime { format!("'a, {}", names.join(", ")) } else { names.join(", ") };
     let preds: Vec<String> = names
         .iter()
         .enumerate()
@@ -292,7 +305,7 @@ pub fn contract_attr_lines(p: &Program) -> Vec<String> {
     for i in &p.interfaces {
         let mut line = format!("#[sv::messages({}", i.module);
         if i.explicit_as {
-            write!(line, " as {}", i.trait_name).unwrap();
+            write!(line, " as {}", i.alias.as_ref().unwrap_or(&i.trait_name)).unwrap();
         }
         if i.style == CustomStyle::Plain {
             let mut flags = vec![];
